@@ -91,6 +91,13 @@ def run(ctx, prog):
             atoms.append(pathsens.Atom('present', present_rx))
         pops = set(c.bb for c in f.calls if c.callee and re.search(pop_rx, c.callee))
         rms = set(c.bb for c in f.calls if c.callee and re.search(rm_rx, c.callee) and c.args and field.split('.')[-1] in flow.render(of.of_operand(c.args[0])))
+        # the removal may live in a helper of the same module (e.g. remove_entry): a callee that itself removes from this field counts as the removal
+        for c in f.calls:
+            g = prog.resolve_local(c.callee) if c.callee else None
+            if g is not None and g is not f and g.id.split('::')[0:2] == f.id.split('::')[0:2]:
+                og_ = flow.Origin(g)
+                if any(x.callee and re.search(rm_rx, x.callee) and x.args and flow.render(og_.of_operand(x.args[0])).endswith(field) for x in g.calls):
+                    rms.add(c.bb)
         pop_none = set()
         for c in f.calls:
             if c.callee and re.search(pop_rx, c.callee) and 'pop_lru' in c.callee:
